@@ -98,6 +98,69 @@ func (w *c37FaultWS) Write(p []byte) (int, error) {
 	return n, nil
 }
 
+// c37FaultWST is the same destination with a Truncate method, as an *os.File has.
+type c37FaultWST struct{ c37FaultWS }
+
+func (w *c37FaultWST) Truncate(size int64) error {
+	if size < int64(len(w.buf)) {
+		w.buf = w.buf[:size]
+	}
+	return nil
+}
+
+// c37FaultFile forwards to the real temporary file the Uploader created; the first
+// attempt's writes fail after failAt bytes (a full disk, an I/O error).
+type c37FaultFile struct {
+	f       *os.File
+	attempt int
+	written int
+	failAt  int
+	onFail  func()
+}
+
+func (w *c37FaultFile) Seek(off int64, whence int) (int64, error) {
+	w.attempt++
+	w.written = 0
+	return w.f.Seek(off, whence)
+}
+func (w *c37FaultFile) Truncate(size int64) error { return w.f.Truncate(size) }
+func (w *c37FaultFile) Write(p []byte) (int, error) {
+	if w.attempt == 1 && w.written+len(p) > w.failAt {
+		n := w.failAt - w.written
+		if n < 0 {
+			n = 0
+		}
+		w.f.Write(p[:n])
+		w.written += n
+		if w.onFail != nil {
+			f := w.onFail
+			w.onFail = nil
+			f()
+		}
+		return n, errors.New("c37FaultFile: scripted write failure")
+	}
+	w.written += len(p)
+	return w.f.Write(p)
+}
+
+// c37E2EProvider is the real store.Provider behind a destination that fails once.
+type c37E2EProvider struct {
+	p      *Provider
+	failAt int
+	onFail func()
+	used   bool
+}
+
+func (d *c37E2EProvider) LastIndex() (uint64, error) { return d.p.LastIndex() }
+func (d *c37E2EProvider) Provide(w io.WriteSeeker) error {
+	f, ok := w.(*os.File)
+	if !ok || d.used {
+		return d.p.Provide(w)
+	}
+	d.used = true
+	return d.p.Provide(&c37FaultFile{f: f, failAt: d.failAt, onFail: d.onFail})
+}
+
 // ---- scripted storage client ---------------------------------------------------------------
 
 type c37Obj struct {
@@ -267,7 +330,13 @@ func TestVerifC37Store(t *testing.T) {
 		if r.Chance(25) {
 			nFail = 0
 		}
-		ws := &c37FaultWS{}
+		trunc := r.Bool()
+		wst := &c37FaultWST{}
+		ws := &wst.c37FaultWS
+		var dest io.WriteSeeker = ws
+		if trunc {
+			dest = wst
+		}
 		for j := 0; j < nFail; j++ {
 			switch r.Intn(3) {
 			case 0:
@@ -281,7 +350,11 @@ func TestVerifC37Store(t *testing.T) {
 		if r.Chance(30) {
 			_ = write()
 		}
-		err := p.Provide(ws)
+		err := p.Provide(dest)
+		tflag := 0
+		if trunc {
+			tflag = 1
+		}
 		var toks []string
 		for j, a := range ws.attempts {
 			res := "fail"
@@ -292,7 +365,7 @@ func TestVerifC37Store(t *testing.T) {
 		}
 		// an attempt that must never be made (beyond the budget or after success)
 		toks = append(toks, "xdeadbeef:ok")
-		op := fmt.Sprintf("provide %d %s", p.nRetries, strings.Join(toks, " "))
+		op := fmt.Sprintf("provide %d %d %s", tflag, p.nRetries, strings.Join(toks, " "))
 		res := "fail"
 		if err == nil {
 			res = "ok"
@@ -301,6 +374,7 @@ func TestVerifC37Store(t *testing.T) {
 		segOps = append(segOps, []string{"new", op})
 		segImpl = append(segImpl, []string{"ok", got})
 		rep.Count(fmt.Sprintf("provide:vacuum=%v,compress=%v", vac, comp))
+		rep.Count(fmt.Sprintf("provide:truncatable-destination=%v", trunc))
 		rep.Count(fmt.Sprintf("provide:result=%s,attempts=%d", res, len(ws.attempts)))
 		rep.Case(fmt.Sprintf("provide:%v:%v:%d:%v", vac, comp, p.nRetries, ws.failAt), len(ws.attempts) > 1)
 		// property-level checks on the real loop
@@ -321,8 +395,12 @@ func TestVerifC37Store(t *testing.T) {
 		}
 		if err == nil {
 			last := ws.attempts[len(ws.attempts)-1].written
-			if len(ws.buf) > len(last) {
-				rep.Count("provide:destination-longer-than-the-successful-backup")
+			if len(ws.buf) > len(last) && !trunc {
+				// a destination that cannot be truncated: documented limit of Provide
+				rep.Count("provide:untruncatable-destination-longer-than-the-successful-backup")
+			} else if len(ws.buf) > len(last) {
+				rep.Fail("provide:destination-has-trailing-bytes-of-a-failed-attempt",
+					fmt.Sprintf("Provide returned nil; the successful attempt wrote %d bytes but the (truncatable) destination holds %d", len(last), len(ws.buf)), nil)
 			} else if !bytes.Equal(ws.buf, last) {
 				rep.Fail("provide:destination-differs-from-successful-attempt", "", nil)
 			}
@@ -342,24 +420,70 @@ func TestVerifC37Store(t *testing.T) {
 		}
 		p := NewProvider(s, true, true)
 		p.retryInterval = time.Millisecond
-		ws := &c37FaultWS{failAt: []int{20000}}
+		wst := &c37FaultWST{c37FaultWS{failAt: []int{20000}}}
+		ws := &wst.c37FaultWS
 		ws.onFail = func(int) {
 			go func() { c37Exec(s, "DELETE FROM big") }()
 			time.Sleep(300 * time.Millisecond)
 		}
-		err := p.Provide(ws)
+		err := p.Provide(wst)
 		if err == nil && len(ws.attempts) == 2 {
 			a0, a1 := ws.attempts[0].written, ws.attempts[1].written
-			op := fmt.Sprintf("provide %d %s:fail %s:ok", p.nRetries, vfHexB(a0), vfHexB(a1))
+			op := fmt.Sprintf("provide 1 %d %s:fail %s:ok", p.nRetries, vfHexB(a0), vfHexB(a1))
 			segOps = append(segOps, []string{"new", op})
 			segImpl = append(segImpl, []string{"ok", fmt.Sprintf("ok %s attempts=2", vfHexB(ws.buf))})
 			_, gzErr := c37Seqs(dir, ws.buf, true)
-			rep.Note("directed Provide(vacuum,compress): attempt 1 failed after %d bytes, attempt 2 wrote %d bytes and succeeded; destination is %d bytes (not truncated); reading it as a gzip database: %v", len(a0), len(a1), len(ws.buf), gzErr)
-			if len(ws.buf) > len(a1) {
-				rep.Count("provide:destination-longer-than-the-successful-backup")
+			rep.Note("directed Provide(vacuum,compress) into a truncatable destination: attempt 1 failed after %d bytes, attempt 2 wrote %d bytes and succeeded; destination is %d bytes; reading it as a gzip database: %v", len(a0), len(a1), len(ws.buf), gzErr)
+			rep.Count("provide:failed-attempt-longer-than-the-successful-retry")
+			if len(ws.buf) > len(a1) || gzErr != nil {
+				rep.Fail("provide:destination-has-trailing-bytes-of-a-failed-attempt",
+					fmt.Sprintf("vacuum+compress: attempt 1 failed after %d bytes, attempt 2 wrote %d bytes and Provide returned nil; destination holds %d bytes; reading it: %v", len(a0), len(a1), len(ws.buf), gzErr), nil)
 			}
 		} else {
 			rep.Note("directed shrink scenario did not take the expected shape: err=%v attempts=%d", err, len(ws.attempts))
+		}
+	}
+	// directed, end to end: the REAL Uploader with the real Provider; the Uploader's temporary
+	// file refuses writes once, after 20000 bytes, and the database shrinks before the retry
+	{
+		var ins []string
+		for i := 0; i < 40; i++ {
+			ins = append(ins, fmt.Sprintf("INSERT INTO big(b) VALUES('%s')", vfHexB(r.Bytes(600))))
+		}
+		if _, err := c37Exec(s, ins...); err != nil {
+			t.Fatalf("big: %v", err)
+		}
+		rp := NewProvider(s, true, true)
+		rp.retryInterval = time.Millisecond
+		e2e := &c37E2EProvider{p: rp, failAt: 20000}
+		e2e.onFail = func() {
+			go func() { c37Exec(s, "DELETE FROM big") }()
+			time.Sleep(300 * time.Millisecond)
+		}
+		st := &c37Storage{s: s, rng: vfNewRng(3799)}
+		up := backup.NewUploader(st, e2e, 10*time.Millisecond)
+		ctx, cancel := context.WithCancel(context.Background())
+		done := up.Start(ctx, nil)
+		deadline := time.Now().Add(20 * time.Second)
+		for st.calls.Load() == 0 && time.Now().Before(deadline) {
+			time.Sleep(5 * time.Millisecond)
+		}
+		cancel()
+		<-done
+		st.mu.Lock()
+		objs := st.objs
+		st.mu.Unlock()
+		if len(objs) == 0 || !e2e.used {
+			rep.Note("end-to-end failed-attempt scenario: no upload observed (used=%v)", e2e.used)
+		} else {
+			o := objs[0]
+			seqs, rerr := c37Seqs(dir, o.data, true)
+			rep.Count("upload:after-a-failed-attempt-inside-provide")
+			rep.Note("end to end: the Uploader uploaded %d bytes labelled %s after a failed first attempt of 20000 bytes; reading the object: err=%v rows=%d", len(o.data), o.id, rerr, len(seqs))
+			if rerr != nil {
+				rep.Fail("upload:object-is-not-a-readable-backup:failed-attempt-inside-provide",
+					fmt.Sprintf("the real Uploader uploaded an object labelled %s of %d bytes that cannot be read back (%v): the first backup attempt inside Provide failed after writing 20000 bytes to the temporary file, the retry wrote a shorter backup over its beginning", o.id, len(o.data), rerr), nil)
+			}
 		}
 	}
 	rep.vfCompareSegments("uploader", segOps, segImpl)
